@@ -35,6 +35,11 @@ for c in CHECKS:
         'level_note': c['note'],
         'technique': c['technique'],
     })
+claimed = {c['property_id'] for c in CHECKS} | {n['property_id'] for n in NOT_APPLICABLE}
+for line in open(os.path.join(os.path.dirname(os.path.dirname(os.path.abspath(__file__))), 'properties.jsonl')):
+    pid = json.loads(line)['id']
+    if pid not in claimed:
+        m['not_applicable'].append({'property_id': pid, 'reason': 'no check registered yet in this round (rules designed in DESIGN.md section 3; not claimed until the check exists and is silent on the unchanged tree)'})
 out = os.path.join(os.path.dirname(os.path.dirname(os.path.abspath(__file__))), 'MANIFEST.json')
 json.dump(m, open(out, 'w'), indent=1)
 print('wrote', out, len(m['checks']), 'checks')
